@@ -802,7 +802,10 @@ def filtered_copy(fn: FunctionInfo, target: str, source: str):
     def from_loop(lst_name):
         loops = [l_ for l_ in walk_stmts(fn.node.body) if isinstance(l_, ast.For) and nsp(l_.iter) == source and isinstance(l_.target, ast.Name)
                  and any(path_of(k.func) == f"{lst_name}.append" for k in calls_in(l_))]
-        if len(loops) == 1 and len(loops[0].body) == 1 and isinstance(loops[0].body[0], ast.If) and not loops[0].body[0].orelse:
+        # an `else` that only keeps a count of the rejected elements (augmented assignments to plain locals) does not change what is kept
+        def counts_only(orelse):
+            return all(isinstance(x, ast.AugAssign) and isinstance(x.target, ast.Name) and x.target.id != lst_name and not any(isinstance(y, ast.Call) for y in ast.walk(x.value)) for x in orelse)
+        if len(loops) == 1 and len(loops[0].body) == 1 and isinstance(loops[0].body[0], ast.If) and counts_only(loops[0].body[0].orelse):
             if_ = loops[0].body[0]
             apps = [x for x in if_.body if isinstance(x, ast.Expr) and isinstance(x.value, ast.Call) and path_of(x.value.func) == f"{lst_name}.append" and [path_of(a_) for a_ in x.value.args] == [loops[0].target.id]]
             others = [k for k in calls_in(fn.node) if path_of(k.func) in (f"{lst_name}.append", f"{lst_name}.extend", f"{lst_name}.insert") and not any(k is x.value for x in apps)]
